@@ -1209,7 +1209,7 @@ static PhysText generateModel(Rng& rng, ModelInfo& mi) {
     PhysText p;
     auto U = [&](double a, double b) { return rng.uniform(a, b); };
     auto LU = [&](double a, double b) { return rng.loguniform(a, b); };
-    auto feat = [&](const char* f) { mi.features.push_back(f); };
+    auto feat = [&](const std::string& f) { mi.features.push_back(f); };
     // value or default (the choice is the same in all four renderings)
     auto vd = [&](double si, const char* dim, double pdef = 0.3) { if (rng.chance(pdef)) { p.d(); return true; } p.v(si, dim); return false; };
     bool p1Defaulted[7] = {true, true, true, true, true, true, true};   // ORAT WRAT GRAT LRAT RESV BHP THP of P1's current WCONPROD
@@ -1410,11 +1410,23 @@ static PhysText generateModel(Rng& rng, ModelInfo& mi) {
     const bool vfp = rng.chance(0.4);
     if (vfp) {
         feat("VFPPROD");
-        p.t("VFPPROD\n 1").v(top, "Length").t(" 'OIL' 'WCT' 'GOR' 'THP' 'GRAT' '@VFPUNITS@' 'BHP' /\n");
-        for (int i = 0; i < 3; ++i) p.v(1e-3 * (i + 1) * U(0.9, 1.1), "LiquidSurfaceVolume/Time"); p.t(" /\n");
+        // the axis types are converted by hand in VFPProdTable (not through item dimensions): every flow / water fraction / gas
+        // fraction type with its physical dimension
+        static const char* FLO[] = {"OIL", "LIQ", "GAS"};
+        static const char* FLODIM[] = {"LiquidSurfaceVolume/Time", "LiquidSurfaceVolume/Time", "GasSurfaceVolume/Time"};
+        static const char* WFR[] = {"WCT", "WOR", "WGR"};
+        static const char* WFRDIM[] = {"1", "1", "LiquidSurfaceVolume/GasSurfaceVolume"};
+        static const char* GFR[] = {"GOR", "GLR", "OGR"};
+        static const char* GFRDIM[] = {"GasSurfaceVolume/LiquidSurfaceVolume", "GasSurfaceVolume/LiquidSurfaceVolume", "LiquidSurfaceVolume/GasSurfaceVolume"};
+        const int fl = (int)rng.below(3), wf = (int)rng.below(3), gf = (int)rng.below(3);
+        feat(std::string("VFPPROD ") + FLO[fl] + "/" + WFR[wf] + "/" + GFR[gf]);
+        p.t("VFPPROD\n 1").v(top, "Length").t(std::string(" '") + FLO[fl] + "' '" + WFR[wf] + "' '" + GFR[gf] + "' 'THP' 'GRAT' '@VFPUNITS@' 'BHP' /\n");
+        for (int i = 0; i < 3; ++i) p.v((fl == 2 ? 1.0 : 1e-3) * (i + 1) * U(0.9, 1.1), FLODIM[fl]); p.t(" /\n");
         for (int i = 0; i < 2; ++i) p.v(1e6 * (i + 1) + U(0, 1e5), "Pressure"); p.t(" /\n");
-        p.v(0.0, "1").v(0.5, "1").t(" /\n");
-        p.v(50 + U(0, 10), "GasSurfaceVolume/LiquidSurfaceVolume").v(150 + U(0, 10), "GasSurfaceVolume/LiquidSurfaceVolume").t(" /\n");
+        if (wf == 2) p.v(1e-5 * U(1, 2), WFRDIM[wf]).v(1e-3 * U(1, 2), WFRDIM[wf]).t(" /\n");
+        else p.v(0.0, "1").v(0.5, "1").t(" /\n");
+        if (gf == 2) p.v(1e-5 * U(1, 2), GFRDIM[gf]).v(1e-3 * U(1, 2), GFRDIM[gf]).t(" /\n");
+        else p.v(50 + U(0, 10), GFRDIM[gf]).v(150 + U(0, 10), GFRDIM[gf]).t(" /\n");
         p.v(0.0, "GasSurfaceVolume/Time").t(" /\n");
         for (int t = 1; t <= 2; ++t) for (int w = 1; w <= 2; ++w) for (int g = 1; g <= 2; ++g) { p.t(" " + std::to_string(t) + " " + std::to_string(w) + " " + std::to_string(g) + " 1"); for (int f = 0; f < 3; ++f) p.v(U(8e6, 2e7), "Pressure"); p.t(" /\n"); }
     }
